@@ -11,7 +11,15 @@ Local Open Scope Q_scope.
    1e300) does not loosen the comparison of a projection. *)
 Definition close_rel (mg a b : Q) : bool :=
   Qle_bool (Qabs (a - b)) (tol * Qmax' mg (Qmax' (Qabs a) (Qabs b))).
-Definition fl_close_rel (mg m : Q) (o : fl) : bool := match o with Fin q => close_rel mg m q | _ => false end.
+(* far-offset closeness, per coordinate: the feature-relative term t plus 3/4 * 2^-51 of the coordinate itself, i.e.
+   between 0.75 and 1.5 ulp of it (a correctly computed position carries half an ulp from its last addition) *)
+Definition close_abs (t : Q) (_ a b : Q) : bool :=
+  Qle_bool (Qabs (a - b)) (t + (3 # 4) * (1 # 2251799813685248) * Qmax' (Qabs a) (Qabs b)).
+
+Section Cmp.
+(* the closeness used for positions: close_rel, or an absolute tolerance for far-offset cases (CFar) *)
+Context (cl : Q -> Q -> Q -> bool).
+Definition fl_close_rel (mg m : Q) (o : fl) : bool := match o with Fin q => cl mg m q | _ => false end.
 Definition vec_close_rel mg (m : vec3 Q) (o : list fl) : bool := all2 (fl_close_rel mg) (vlist m) o.
 Definition vecs_close_rel mg (m : list (vec3 Q)) (o : list (list fl)) : bool := all2 (vec_close_rel mg) m o.
 Definition row_opt (mg : Q) (m : option (vec3 Q)) (o : list fl) : bool :=
@@ -22,6 +30,7 @@ Definition row_nan (mg : Q) (m : option (vec3 Q)) (o : list fl) : bool :=
   | Some v => vec_close_rel mg v o
   end.
 Definition rows_nan mg := all2 (row_nan mg).
+End Cmp.
 Definition vmag (v : vec3 Q) : Q := Qmax' (Qabs (vx v)) (Qmax' (Qabs (vy v)) (Qabs (vz v))).
 Definition mag (ps : list (vec3 Q)) : Q := fold_left (fun m p => Qmax' m (vmag p)) ps 0.
 
@@ -40,7 +49,9 @@ Inductive case :=
 | CIsect (p0 q0 p1 q1 : vec3 Q) (fn meth : list fl)
 | CIsect2 (p0 q0 p1 q1 : Q * Q) (o : list fl)
 (* a case judged by the oracle only (inputs outside what the exact model can usefully evaluate) *)
-| CSkip.
+| CSkip
+(* a small scene far from the origin: positions compared with the ABSOLUTE tolerance ptol *)
+| CFar (ptol : Q) (c : case).
 
 Definition ref_rows (l : line Q) : list (vec3 Q) := [fst (reference_points QOps l); snd (reference_points QOps l)].
 Definition meth_isect (p0 q0 p1 q1 : vec3 Q) : option (vec3 Q) :=
@@ -49,7 +60,9 @@ Definition meth_isect (p0 q0 p1 q1 : vec3 Q) : option (vec3 Q) :=
   | _, _ => None
   end.
 
-Definition check_case (c : case) : bool :=
+Definition check_with (cl : Q -> Q -> Q -> bool) (c : case) : bool :=
+  let row_opt := row_opt cl in let row_nan := row_nan cl in let rows_nan := rows_nan cl in
+  let vecs_close_rel := vecs_close_rel cl in let fl_close_rel := fl_close_rel cl in
   match c with
   | CProj p ref a fn meth =>
       let m := mag [p; ref] in
@@ -77,4 +90,11 @@ Definition check_case (c : case) : bool :=
       | _, _ => false
       end
   | CSkip => true
+  | CFar _ _ => false
+  end.
+
+Definition check_case (c : case) : bool :=
+  match c with
+  | CFar t c' => check_with (close_abs t) c'
+  | _ => check_with close_rel c
   end.
